@@ -59,13 +59,19 @@ META = dict(
          'strings gives, position by position, what decoding each alone gives; permuting the subsets permutes the result; '
          'the encoder\'s bits and reports (labels, links) of together are those of each alone in a row, in any order; the node '
          'tree of subset i is a function of the template and the flat lists of subset i alone, and the message fails to wire '
-         'iff some subset fails alone - for all templates of the model and any n; plus the tie to pybufrkit: '
-         'together-vs-alone oracle on the implementation (values, labels, links, nested JSON; alone = re-encoded and = cut at '
-         'the model\'s bit boundaries), encoder concatenation, all orders for n <= 4 / random orders above, model-vs-'
-         'implementation correspondence of flat lists and node trees on the together-message, on templates with differing '
-         'replication counts and bitmaps per subset, on templates that end inside an operator construct, and on templates '
-         'with several delayed replications of different elements in front of bitmap constructs whose per-subset factors '
-         'compensate each other (equal flat length and bitmap length, different arrangement).',
+         'iff some subset fails alone - for all templates of the model and any n; THE SAME ON THE COMPILED-TEMPLATE PATH '
+         '(Props/C06Compiled.lean): executing ANY compiled program subset by subset equals executing it on each subset alone '
+         '(decode and encode, any n, any order; no class hypothesis), for scopeClosed templates that is decoding each subset '
+         'alone with the interpreted walk, and first use (compile) and later uses (cache) hand out the same program; plus the '
+         'tie to pybufrkit: together-vs-alone oracle on the implementation (values, labels, links, nested JSON; alone = '
+         're-encoded and = cut at the model\'s bit boundaries), encoder concatenation, all orders for n <= 4 / random orders '
+         'above, EVERY CASE ALSO THROUGH Decoder/Encoder(compiled_template_cache_max = 1, 2, 8, 0) (first use = compile, '
+         'second use = cached program, once more after the alone messages went through the same object, reverse order), '
+         'model-vs-implementation correspondence of flat lists and node trees on the together-message, on templates with '
+         'differing replication counts and bitmaps per subset, on templates that end inside an operator construct, on marker '
+         'operators processed while 201/202/207/208 is in force, and on templates with several delayed replications of '
+         'different elements in front of bitmap constructs whose per-subset factors compensate each other (equal flat length '
+         'and bitmap length, different arrangement).',
     technique='Lean 4 theorems (frame lemma by mutual structural induction over the template walk; wiring per subset) + '
               'metamorphic oracle on the implementation + checked model/implementation correspondence',
     note='The mutable node objects of templatedata.py are modelled by value (View/Wire.lean): sharing of node objects '
